@@ -54,7 +54,7 @@ def run(ctx):
             store = c06.STORE
             p, a, res, cx, ignored = c06.gen_template(r)
             names = set()
-            for part in (p, res, cx):
+            for part in (p, a, res, cx):
                 c06.vars_of(part, names)
             vars_ = ['vars'] + [[S(nm)] + ([gen.vrec([('flag', gen.vbool(True)), ('n', gen.vlong(1))])] if nm == 'c' else list(reversed(c06.VALUES[nm][:3])) if r.random() < 0.5 else c06.VALUES[nm][:2]) for nm in sorted(names)]
             tmpl = ['req', p, a, res, cx]
